@@ -112,7 +112,8 @@ def handlers : List (String × Handler) := [
         ("seg", match fr.seg with | some s => (s : Json) | none => Json.null),
         ("plane", (fr.plane : Json)),
         ("div", intsToJson fr.indexValues),
-        ("pos", match pos[fr.plane]? with | some p => v3ToJson p | none => Json.null)])).toArray) r)
+        ("pos_plane", (fr.posPlane : Json)),
+        ("pos", match pos[fr.posPlane]? with | some p => v3ToJson p | none => Json.null)])).toArray) r)
     | _ => throw "iop of 6 expected"),
   ("stdSliceIndices", fun j => do
     let r := stdSliceIndices (← getOptInt j "start") (← getOptInt j "end") (← getInt j "n") (← getBool j "as_indices")
